@@ -5,6 +5,15 @@
 import Fadl.Sem
 namespace Fadl
 
+def EErr.render : EErr → String
+  | .unbound x => "unbound:" ++ x
+  | .type w => "type:" ++ w
+  | .index => "index"
+  | .zeroDiv => "zerodiv"
+  | .arity => "arity"
+  | .unsupported w => "unsupported:" ++ w
+  | .world w => "world:" ++ w
+
 mutual
 def Val.toSExpr : Val → SExpr
   | .int n => .list [.atom "int", .atom (toString n)]
@@ -21,6 +30,7 @@ def Val.toSExpr : Val → SExpr
       | some i => .atom (toString i)
       | Option.none => .atom "none"
     .list [.atom "slice", o a, o b, o c]
+  | .poison e => .list [.atom "poison", .str e.render]
 def Val.toSExprL : List Val → List SExpr
   | [] => []
   | v :: vs => v.toSExpr :: Val.toSExprL vs
@@ -46,15 +56,6 @@ partial def Val.ofSExprL : List SExpr → Option (List Val)
     let vs ← Val.ofSExprL xs
     pure (v :: vs)
 end
-
-def EErr.render : EErr → String
-  | .unbound x => "unbound:" ++ x
-  | .type w => "type:" ++ w
-  | .index => "index"
-  | .zeroDiv => "zerodiv"
-  | .arity => "arity"
-  | .unsupported w => "unsupported:" ++ w
-  | .world w => "world:" ++ w
 
 /-! ### the driver's concrete world
 
